@@ -63,6 +63,7 @@ class Sentence(object):
     def __init__(self, out, nls, theme=None):
         self.theme = theme
         self.raw = (out, list(nls))
+        self.model = None
         self.tokens = []
         self.items = []
         self.root = None
@@ -160,6 +161,38 @@ def compose(parts, theme='composed'):
         nls.extend(i + ntok for i in n)
         ntok += len(s.tokens)
     return Sentence([head] + out + [tail], nls, theme)
+
+
+def embed(template, inner, theme='embedded'):
+    """The statements of the program `inner` put into the (empty) body of
+    the first function with an empty body of `template`: the product of `inner`
+    (without its ES5Program brackets) is spliced in after the `{` of that FuncExpr / FuncDecl node.  A virtual semicolon
+    at the end of `inner` stays justified: a `}` follows it."""
+    o, n = template.raw
+    io, inn = inner.raw
+    if io[0][:2] != ['(', 'ES5Program'] or io[-1] != [')']:
+        raise ValueError('not a Program product')
+    stack = []
+    ntok = 0
+    at = None
+    for k, it in enumerate(o):
+        if it[0] == '(':
+            stack.append(it[1])
+        elif it[0] == ')':
+            stack.pop()
+        elif it[0] == 'T':
+            ntok += 1
+            if it[1] == '{' and stack and stack[-1] in (
+                    'FuncExpr', 'FuncDecl') and o[k + 1][:2] == ['T', '}']:
+                at = k + 1
+                break
+    if at is None:
+        raise ValueError('template has no function body')
+    out = o[:at] + io[1:-1] + o[at:]
+    nin = len(inner.tokens)
+    nls = [i for i in n if i <= ntok] + [i + ntok for i in inn] + \
+        [i + nin for i in n if i > ntok]
+    return Sentence(out, nls, theme)
 
 
 def parse_lines(lines, theme=None):
